@@ -3,7 +3,11 @@
 scenario = {
   "timeouts": {"acse": 5, "dimse": 5, "network": 10, "connection": 5},
   "acceptor":  {"kind": "pynetdicom", "handlers": {...}, "shutdown_at": t|None, "max_assoc": n, ...} | {"kind": "raw", "script": [...]},
+               optional for the pynetdicom acceptor: "title": AE title of the acceptor AE (default "ANY-SCP");
+               "servers": k (default 1) = the ONE acceptor AE runs k association servers on the virtual ports PORT .. PORT+k-1, all bound to
+               the same handlers/recorder (out["_rec_acc"] then holds the events of all servers of the AE, out["_acc_servers"] the servers)
   "requestors": [ {"kind": "pynetdicom", "script": [...], "abort_at": t|None, "start": t} | {"kind": "raw", "script": [...], "start": t}, ... ],
+               optional per requestor: "port": the virtual port it connects to (default PORT)
   "schedule": {"policy": "fifo|random|pct", "seed": n, "preemptions": [[step, pick]...], "nudges": [[step, kind]...]},
 }
 pynetdicom requestor script ops: ["associate"], ["echo"], ["store", nbytes], ["find", max_iter|None], ["release"], ["abort"],
@@ -31,6 +35,11 @@ RAW_RQ = R.AssocRQ("ANY-SCP", "RAWPEER", APP_CTX, [R.PCRQ(1, VERIFICATION, [IMPL
                    [R.MaxLength(16382), R.ImplClassUID("1.2.826.0.1.3680043.9.3811.9.9")])
 RAW_AC = R.AssocAC("ANY-SCP", "PYNETDICOM", APP_CTX, [R.PCAC(1, 0, IMPLICIT), R.PCAC(3, 0, IMPLICIT), R.PCAC(5, 0, IMPLICIT)],
                    [R.MaxLength(16382), R.ImplClassUID("1.2.826.0.1.3680043.9.3811.9.9")])
+
+PR_GET = "1.2.840.10008.5.1.4.1.2.1.3"
+# a raw C-GET requestor: additionally proposes Patient Root GET and the SCP role for CT Image Storage (sub-operations come back to it)
+RAW_RQ_GET = R.AssocRQ("ANY-SCP", "RAWPEER", APP_CTX, [R.PCRQ(1, VERIFICATION, [IMPLICIT]), R.PCRQ(3, CT, [IMPLICIT]), R.PCRQ(5, PR_FIND, [IMPLICIT]), R.PCRQ(7, PR_GET, [IMPLICIT])],
+                       [R.MaxLength(16382), R.ImplClassUID("1.2.826.0.1.3680043.9.3811.9.9"), R.RoleSelection(CT, 1, 1)])
 
 NOTIFICATION_EVENTS = ["EVT_ABORTED", "EVT_ACCEPTED", "EVT_ACSE_RECV", "EVT_ACSE_SENT", "EVT_CONN_CLOSE", "EVT_CONN_OPEN", "EVT_DATA_RECV",
                        "EVT_DATA_SENT", "EVT_DIMSE_RECV", "EVT_DIMSE_SENT", "EVT_ESTABLISHED", "EVT_FSM_TRANSITION", "EVT_PDU_RECV",
@@ -74,6 +83,16 @@ def dimse_bytes(kind, msg_id=1, nbytes=64, max_pdu=16382, context_id=None):
         p.Priority = 2
         p.Identifier = BytesIO(encode(ds, True, True))
         m, cid = DM.C_FIND_RQ(), 5
+    elif kind == "get":
+        ds = Dataset()
+        ds.QueryRetrieveLevel = "PATIENT"
+        ds.PatientID = "1"
+        p = DP.C_GET()
+        p.MessageID = msg_id
+        p.AffectedSOPClassUID = PR_GET
+        p.Priority = 2
+        p.Identifier = BytesIO(encode(ds, True, True))
+        m, cid = DM.C_GET_RQ(), 7
     else:
         raise ValueError(kind)
     cid = context_id or cid
@@ -172,7 +191,7 @@ def _mk_ae(title, to):
 
 def _acceptor_handlers(world, beh, log):
     """Intervention handlers for the pynetdicom acceptor from plain-data behaviours."""
-    from pydicom.dataset import Dataset
+    from pydicom.dataset import Dataset, FileMetaDataset
     from pynetdicom import evt
 
     def act(event, what):
@@ -214,7 +233,90 @@ def _acceptor_handlers(world, beh, log):
             log.append(("yield", "find", i, round(world.now - 1000.0, 4)))
             yield 0xFF00, ds
 
-    return [(evt.EVT_C_ECHO, h_echo), (evt.EVT_C_STORE, h_store), (evt.EVT_C_FIND, h_find)]
+    def h_get(event):
+        b = beh.get("get", {})
+        log.append(("handler", "get", round(world.now - 1000.0, 4)))
+        n = b.get("n", 2)
+        yield n
+        for i in range(n):
+            if b.get("delay"):
+                S.VTime.sleep(b["delay"])
+            if b.get("do_at") == i:
+                act(event, b.get("do"))
+            if event.is_cancelled:
+                yield 0xFE00, None
+                return
+            ds = Dataset()
+            ds.SOPClassUID = CT
+            ds.SOPInstanceUID = f"1.2.3.9.{i + 1}"
+            ds.PatientID = "1"
+            ds.PatientName = "X" * b.get("nbytes", 16)
+            ds.file_meta = FileMetaDataset()
+            ds.file_meta.TransferSyntaxUID = IMPLICIT
+            log.append(("yield", "get", i, round(world.now - 1000.0, 4)))
+            yield 0xFF00, ds
+
+    hs = [(evt.EVT_C_ECHO, h_echo), (evt.EVT_C_STORE, h_store), (evt.EVT_C_FIND, h_find)]
+    if "get" in beh:
+        hs.append((evt.EVT_C_GET, h_get))
+    return hs
+
+
+def _substore_op(peer, op):
+    """RawPeer op ["substore", k, timeout, tail]: act as the Storage SCP of a C-GET requestor. Reads PDUs (appended to peer.received like
+    recv_pdu), answers every complete C-STORE request with a Success C-STORE response and, together with the k-th response (k = 0: at once),
+    sends `tail` (e.g. an A-RELEASE-RQ) in the same segment, then returns. Also returns after `tail` has been sent when a final (non-Pending)
+    C-GET response arrives first (fewer than k sub-operations), on EOF, timeout or an A-ABORT. Message (de)coding uses pynetdicom's DIMSE
+    codec as a transcript helper (harness input path, not judged here)."""
+    from pynetdicom import dimse_messages as DM
+    from pynetdicom import dimse_primitives as DP
+    from pynetdicom.pdu import P_DATA_TF
+
+    k, timeout, tail = op[1], op[2], bytes(op[3])
+    done = 0
+    if k == 0:
+        peer.sock.send(tail)
+        peer.log.append((round(peer.w.now - 1000.0, 4), "tail"))
+        return
+    msg = DM.DIMSEMessage()
+    while True:
+        if peer.recv_pdu(timeout) != "ok":
+            return
+        pdu = peer.received[-1]
+        if pdu[0] != 4:
+            if pdu[0] == 7:
+                return
+            continue
+        tf = P_DATA_TF()
+        tf.decode(pdu)
+        prim = tf.to_primitive()
+        if not msg.decode_msg(prim):
+            continue
+        p = msg.message_to_primitive()
+        cid = msg.context_id
+        msg = DM.DIMSEMessage()
+        if isinstance(p, DP.C_STORE) and p.MessageIDBeingRespondedTo is None:
+            r = DP.C_STORE()
+            r.MessageIDBeingRespondedTo = p.MessageID
+            r.AffectedSOPClassUID = p.AffectedSOPClassUID
+            r.AffectedSOPInstanceUID = p.AffectedSOPInstanceUID
+            r.Status = 0x0000
+            m = DM.C_STORE_RSP()
+            m.primitive_to_message(r)
+            data = b"".join(P_DATA_TF(pd).encode() for pd in m.encode_msg(cid, 16382))
+            done += 1
+            if done >= k:
+                peer.sock.send(data + tail)
+                peer.log.append((round(peer.w.now - 1000.0, 4), "tail"))
+                return
+            peer.sock.send(data)
+        elif isinstance(p, DP.C_GET) and p.Status is not None and p.Status not in (0xFF00, 0xFF01):
+            peer.sock.send(tail)
+            peer.log.append((round(peer.w.now - 1000.0, 4), "tail"))
+            return
+
+
+S.RawPeer.EXT["substore"] = _substore_op
 
 
 def _run_requestor_script(world, spec, to, rec, res, idx):
@@ -308,9 +410,12 @@ def run(sc, chooser=None, raise_plan=None, keep_trace=False):
         out["_rec_acc"] = rec_acc
         acc_ae = None
         if acc["kind"] == "pynetdicom":
-            acc_ae = _mk_ae("ANY-SCP", to)
+            acc_ae = _mk_ae(acc.get("title", "ANY-SCP"), to)
             for ab in acc.get("contexts", (VERIFICATION, CT, PR_FIND)):
                 acc_ae.add_supported_context(ab, IMPLICIT)
+            if "get" in acc.get("handlers", {}):  # C-GET SCP: sub-operations go back over the association, so CT with both roles
+                acc_ae.add_supported_context(PR_GET, IMPLICIT)
+                acc_ae.add_supported_context(CT, IMPLICIT, scu_role=True, scp_role=True)
             if "max_assoc" in acc:
                 acc_ae.maximum_associations = acc["max_assoc"]
             if acc.get("require_called"):
@@ -321,7 +426,7 @@ def run(sc, chooser=None, raise_plan=None, keep_trace=False):
             if acc.get("extra_handlers"):
                 over = {e for e, _ in acc["extra_handlers"]}
                 handlers = [h for h in handlers if h[0] not in over] + list(acc["extra_handlers"])
-            w.serve(acc_ae, PORT, handlers=handlers)
+            out["_acc_servers"] = [w.serve(acc_ae, PORT + k, handlers=handlers) for k in range(acc.get("servers", 1))]
             out["_acc_ae"] = acc_ae
             if acc.get("shutdown_at") is not None:
                 def shutdown():
@@ -397,7 +502,7 @@ def run(sc, chooser=None, raise_plan=None, keep_trace=False):
 
                     w.spawn(aborter, f"user{i}-abort")
             else:
-                peer = S.RawPeer(w, list(rq["script"]), port=PORT, start=rq.get("start") or 0)
+                peer = S.RawPeer(w, list(rq["script"]), port=rq.get("port", PORT), start=rq.get("start") or 0)
                 out["raw"].append(peer)
                 out["requestors"].append({"raw": peer})
                 w.spawn(peer.run, f"raw-requestor{i}")
